@@ -7,6 +7,7 @@ import (
 	"github.com/mmcloughlin/avo/attr"
 	"github.com/mmcloughlin/avo/ir"
 	"github.com/mmcloughlin/avo/pass"
+	"github.com/mmcloughlin/avo/printer"
 )
 
 // C19: exhaustive correspondence of Attribute.Asm / ContainsTextFlags (all
@@ -23,11 +24,74 @@ func init() {
 		}
 		defer o.close()
 		macro, nonmacro := 0, 0
+		// the TEXT and GLOBL clauses are taken from the REAL printer: files of 256 functions + 256 globals, one per value
+		textClause := make([]string, 65536)
+		globlClause := make([]string, 65536)
+		for base := 0; base < 65536; base += 256 {
+			file := ir.NewFile()
+			for v := base; v < base+256; v++ {
+				fn := ir.NewFunction(fmt.Sprintf("f%d", v))
+				fn.Attributes = attr.Attribute(v)
+				file.AddSection(fn)
+				g := ir.NewStaticGlobal(fmt.Sprintf("g%d", v))
+				g.Attributes = attr.Attribute(v)
+				file.AddSection(g)
+			}
+			out, err := printer.NewGoAsm(printer.Config{Name: "c19"}).Print(file)
+			if err != nil {
+				return err
+			}
+			for _, line := range strings.Split(string(out), "\n") {
+				var v int
+				switch {
+				case strings.HasPrefix(line, "TEXT "):
+					// TEXT ·f<v>(SB)[, <clause>], $0
+					rest := strings.TrimPrefix(line, "TEXT ")
+					i := strings.Index(rest, "(SB)")
+					if i < 0 {
+						continue
+					}
+					if _, err := fmt.Sscanf(rest[strings.IndexByte(rest, 'f')+1:i], "%d", &v); err != nil || v < 0 || v > 65535 {
+						continue
+					}
+					rest = strings.TrimPrefix(rest[i+4:], ", ")
+					j := strings.LastIndex(rest, "$")
+					if j < 0 {
+						continue
+					}
+					cl := strings.TrimSuffix(strings.TrimSpace(rest[:j]), ",")
+					if cl == "" {
+						cl = "-"
+					}
+					textClause[v] = cl
+				case strings.HasPrefix(line, "GLOBL "):
+					// GLOBL g<v><>(SB), <clause>, $0
+					rest := strings.TrimPrefix(line, "GLOBL ")
+					i := strings.Index(rest, "<>(SB), ")
+					if i < 0 {
+						continue
+					}
+					if _, err := fmt.Sscanf(rest[1:i], "%d", &v); err != nil || v < 0 || v > 65535 {
+						continue
+					}
+					rest = rest[i+8:]
+					j := strings.LastIndex(rest, ", $")
+					if j < 0 {
+						continue
+					}
+					globlClause[v] = rest[:j]
+				}
+			}
+		}
 		for v := 0; v < 65536; v++ {
 			a := attr.Attribute(v)
-			clause := "-"
-			if a != 0 { // printer/goasm.go function(): clause printed only when Attributes != 0
-				clause = a.Asm()
+			clause := textClause[v] // "-" when the printer omitted the flags operand, "" when no TEXT line was found
+			if clause == "" {
+				clause = "missing"
+			}
+			gcl := globlClause[v]
+			if gcl == "" {
+				gcl = "missing"
 			}
 			c := "0"
 			if a.ContainsTextFlags() {
@@ -37,10 +101,12 @@ func init() {
 				nonmacro++
 			}
 			o.emit(fmt.Sprintf("attr %d", v), a.Asm()+" "+c+" "+clause)
-			// acceptors: GLOBL prints Asm() always; TEXT omits the clause for 0
-			o.emit(fmt.Sprintf("accept-attr %d %s %s", v, a.Asm(), c), "ok")
+			// acceptors: the text the printer really put on the GLOBL and the TEXT line must evaluate to v
+			o.emit(fmt.Sprintf("accept-attr %d %s %s", v, gcl, c), "ok")
 			if clause == "-" {
 				o.emit(fmt.Sprintf("accept-attr %d %s", v, c), "ok")
+			} else {
+				o.emit(fmt.Sprintf("accept-attr %d %s %s", v, clause, c), "ok")
 			}
 		}
 		// include pass on generated files
